@@ -93,11 +93,11 @@ package lfs
 //@   ensures err == nil ==> !isobj(fpath(tmp))
 
 //@ func TempFile
-//@   assumed
-//@   props C01 C08 C09
-//@   modifies fresh, ghost fpath[result0], ghost fexists[fpath(result0)], ghost fdata[fpath(result0)], ghost rrest[iface(result0)]
+//@   props C01 C04 C08 C09
+//@   requires @inv cfg != nil
+//@   modifies fresh, key F:github.com/git-lfs/git-lfs/v3/fs.Filesystem.tmpdir, ghost fpath[result0], ghost rrest[iface(result0)], ghost fexists[q | isauxdir(path_dir(q)) && !old(fexists(q))], ghost fdata[q | isauxdir(path_dir(q)) && !old(fexists(q))]
 //@   ensures result1 == nil ==> result0 != nil && isfresh(result0) && fexists(fpath(result0)) && fdata(fpath(result0)) == "" && rrest(iface(result0)) == ""
-//@   ensures !isobj(fpath(result0))
+//@   ensures result1 == nil ==> isauxdir(path_dir(fpath(result0))) && !isobj(fpath(result0)) && forall_v(q, q == fpath(result0) ==> !old(fexists(q)))
 //@   ensures result1 != nil ==> result0 == nil
 //@   ensures !err_cleanptr(result1)
 
@@ -173,10 +173,6 @@ package lfs
 //@   props C04
 //@   requires @inv ptr != nil
 //@   at call (*lfs.GitFilter).readLocalFile:1 assert fexists(arg3__) && len(fdata(arg3__)) == ptr.Size
-//@ func LinkOrCopyFromReference
-//@   assumed
-//@   props C04
-//@   modifies fresh, ghost fexists, ghost fdata
 //@ func (*GitFilter).readLocalFile
 //@   assumed
 //@   props C04
@@ -189,3 +185,22 @@ package lfs
 //@   assumed
 //@   props C04
 //@   modifies all
+
+// C09: copies into place.  The copy is staged in the temp directory, and the
+// destination only ever changes by the final rename (or by a hard link), so
+// whatever instant the process dies at, the destination holds either what it
+// held before or the complete content of the source.
+//@ func CopyFileContents
+//@   props C04 C09
+//@   requires @inv cfg != nil
+//@   requires @C09 isobj(dst) ==> fexists(src) && hexsha(fdata(src)) == oidof(dst)
+//@   modifies fresh, key F:github.com/git-lfs/git-lfs/v3/fs.Filesystem.tmpdir, ghost fpath, ghost rrest, ghost wbuf, ghost fexists[q | q == dst || (isauxdir(path_dir(q)) && !old(fexists(q)))], ghost fdata[q | q == dst || (isauxdir(path_dir(q)) && !old(fexists(q)))]
+//@   ensures result == nil && old(fexists(src)) && (isobj(dst) || old(fexists(dst))) ==> fexists(dst) && fdata(dst) == old(fdata(src))
+//@   ensures result != nil && isobj(dst) ==> fexists(dst) == old(fexists(dst)) && fdata(dst) == old(fdata(dst))
+//@ func LinkOrCopy
+//@   props C04 C09
+//@   requires @inv cfg != nil
+//@   requires @C09 isobj(dst) ==> fexists(src) && hexsha(fdata(src)) == oidof(dst)
+//@   modifies fresh, key F:github.com/git-lfs/git-lfs/v3/fs.Filesystem.tmpdir, ghost fpath, ghost rrest, ghost wbuf, ghost fexists[q | q == dst || (isauxdir(path_dir(q)) && !old(fexists(q)))], ghost fdata[q | q == dst || (isauxdir(path_dir(q)) && !old(fexists(q)))]
+//@   ensures result == nil && src != dst && old(fexists(src)) && (isobj(dst) || old(fexists(dst))) ==> fexists(dst) && fdata(dst) == old(fdata(src))
+//@   ensures result != nil && isobj(dst) ==> fexists(dst) == old(fexists(dst)) && fdata(dst) == old(fdata(dst))
